@@ -529,12 +529,13 @@ fn suite_prim(w: &mut dyn Write, tier: &str, seed: u64, shard: usize, nshards: u
         if i % nshards != shard { continue }
         let b = BitBoard::new(*x);
         let it: Vec<String> = b.map(|s| s.to_int().to_string()).collect();
-        let v = format!("{}|{}|{}|{}|{}|{}|{}", it.join(","), b.count_ones(),
+        let v = format!("{}|{}|{}|{}|{}|{}", it.join(","), b.count_ones(),
             b.first_bit_square().map_or("-".to_string(), |s| s.to_int().to_string()),
             b.last_bit_square().map_or("-".to_string(), |s| s.to_int().to_string()),
             match quiet(|| b.to_square()) { Ok(s) => s.to_int().to_string(), Err(_) => "panic".into() },
-            b.is_blank() as u8, hex(&format!("{}", b)));
+            b.is_blank() as u8);
         p(w, "bb", format!("{:016x}", x), v);
+        p(w, "bb_render", format!("{:016x}", x), hex(&format!("{}", b)));
         if i % 7 == 0 {
             let y = rng.next();
             let c = BitBoard::new(y);
